@@ -645,8 +645,16 @@ func buildGateway(t *sim.Tape) []gwExchange {
 		}
 	}
 	n := t.Range(1, 4)
+	sameRPC := t.Chance(1, 3) // one RPC called again and again (a peer syncing)
+	m0 := mk[t.Choose(len(mk))]
+	if sameRPC {
+		n = t.Range(2, 4)
+	}
 	for i := 0; i < n; i++ {
 		m := mk[t.Choose(len(mk))]
+		if sameRPC {
+			m = m0
+		}
 		req, resp := m(), m()
 		fillObject(t, req, 0, uint64(2*i))
 		fillObject(t, resp, 0, uint64(2*i+1))
@@ -771,6 +779,7 @@ func runGateway(s *Session, exs []gwExchange, mismatch string, addrLen [2]int) {
 	case "net-address":
 		hb.NetAddress = "not-an-address"
 	}
+	gwPrev := map[reflect.Type]gateway.Object{} // (the dialer's alone)
 	dialer := func(e *endpoint, c *Conn) {
 		defer close(e.done)
 		defer c.Close()
@@ -801,7 +810,15 @@ func runGateway(s *Session, exs []gwExchange, mismatch string, addrLen [2]int) {
 				e.logf("ex %d write request failed", i)
 				return
 			}
-			got := reflect.New(reflect.TypeOf(ex.obj).Elem()).Interface().(gateway.Object)
+			// the response is read into a new object, or (every other exchange) into the
+			// one this peer used for its last call of the same RPC
+			got, held := gwPrev[reflect.TypeOf(ex.obj)]
+			if !held || i%2 == 0 {
+				got = reflect.New(reflect.TypeOf(ex.obj).Elem()).Interface().(gateway.Object)
+				gwPrev[reflect.TypeOf(ex.obj)] = got
+			} else {
+				e.inc("gateway.response-into-used-object")
+			}
 			copyRequestPart(got, ex.obj)
 			err := st.ReadResponse(got)
 			e.inc("rpc.read")
